@@ -10,9 +10,9 @@ s = r.stderr
 print(p.get("what"))
 runs = re.findall(r"^RUN (\d+) (\d+)$", s, re.M)
 print("last run:", runs[-1] if runs else None, "rc", r.returncode)
-i = s.find("ERROR: ")
-if i < 0:
-    i = s.find("runtime error")
+cands = [m.start() for m in re.finditer(r"ERROR: AddressSanitizer", s)] + [m.start() for m in re.finditer(r"runtime error: (?!applying zero offset)", s)]
+i = min(cands) if cands else s.rfind("ERROR: ")
+print("tail:", s[-300:].replace("\n", " | "))
 out = []
 for line in s[i:].splitlines():
     if line.startswith("    #"):
